@@ -13,6 +13,7 @@ import Glas.Model.ImportsCmd
 import Glas.Model.FieldsCmd
 import Glas.Model.HighlightCmd
 import Glas.Model.CollectCmd
+import Glas.Model.VfsIdsCmd
 /-! The executable model behind a one-line-in, one-line-out protocol (tab-separated fields). -/
 open Glas
 
@@ -62,7 +63,10 @@ def dispatch (line : String) : String :=
                             | none =>
                               match CollectCmd.run args with
                               | some r => r
-                              | none => "bad-op"
+                              | none =>
+                                match VfsIdsCmd.run args with
+                                | some r => r
+                                | none => "bad-op"
 
 partial def loop (h : IO.FS.Stream) (out : IO.FS.Stream) : IO Unit := do
   let line ← h.getLine
